@@ -9,9 +9,10 @@ from esrally.client import context as client_context
 from esrally.driver import driver
 
 from harness import execenv
+from harness.common import concrete
 from harness.execenv import Client, Clock, StubRunner, drive, lazy_kind
 from symx import core
-from symx.core import fresh_bool, fresh_real, implies, observe, s_and, shadowed
+from symx.core import fresh_bool, fresh_int, fresh_real, implies, observe, s_and, shadowed
 from symx.explore import Harness
 
 PROPERTY = "C04"
@@ -60,10 +61,10 @@ class StubHandle:
             yield prev, st, (i + 1) / self.k, self.runner, {"p": i}
 
 
-def _run(k, throttled, on_error, kinds, ramp=0, cancel_at=None, complete_set=False, complete_during_wait=False, max_gap=None):
+def _run(k, throttled, on_error, kinds, ramp=0, cancel_at=None, complete_set=False, complete_during_wait=False, max_gap=None, nested=False):
     clock = Clock()
     es = {"default": Client()}
-    runner = StubRunner(es, kinds)
+    runner = StubRunner(es, kinds, nested=nested)
     handle = StubHandle(runner, k, throttled, ramp_up=ramp, max_gap=max_gap)
     sampler = driver.Sampler(start_timestamp=0)
     cancel, complete = threading.Event(), threading.Event()
@@ -93,7 +94,7 @@ def timings(sl):
     k, throttled = sl["requests"], sl["throttled"]
     kinds = lazy_kind("outcome", 8)  # all classes but KeyError; ConnectionError is fatal
     clock, runner, handle, samples, how, val, complete = _run(k, throttled, "continue", kinds, complete_during_wait=sl.get("complete_during_wait", False),
-                                                              max_gap=sl.get("max_gap"))
+                                                              max_gap=sl.get("max_gap"), nested=sl.get("nested", False))
     total_start = clock.reads[0]
     core.note("outcomes", [execenv.R_NAMES[kinds.cache[i]] for i in sorted(kinds.cache)])
     core.note("result", (how, repr(val)[:100], len(samples), runner.calls))
@@ -151,6 +152,68 @@ def timings(sl):
             observe("sample %d default weight" % i, s.total_ops == 1 and s.total_ops_unit == "ops")
     for i in range(1, len(samples)):
         observe("issue times non-decreasing", samples[i].absolute_time >= samples[i - 1].absolute_time)
+
+
+def real_scheduler(sl):
+    """real AsyncExecutor + real ScheduleHandle + real UnitAwareScheduler/DeterministicScheduler for a task throttled in docs/s: failed
+    requests (reported as 0 ops) must be sampled like any other and must not disturb the task"""
+    from esrally.driver import scheduler
+
+    k = sl["requests"]
+    clock = Clock()
+    es = {"default": Client()}
+    kinds = lazy_kind("outcome", 3)  # dict with 7 docs / unsuccessful dict (3 docs) / ApiError (0 ops under on-error=continue)
+    kind_map = {0: execenv.R_DICT, 1: execenv.R_DICT_FAIL, 2: execenv.R_API}
+    runner = StubRunner(es, lambda i: kind_map[kinds(i)])
+    clients = concrete(fresh_int("clients", 1, 2))
+    task = track.Task("t", track.Operation("op", "bulk"), clients=clients, warmup_iterations=0, iterations=k, params={"target-throughput": "%d docs/s" % sl["target"]})
+    ta = driver.TaskAllocation(task, 0, 0, clients)
+    yielded = []
+
+    class Params:
+        def params(self):
+            return {"p": 1}
+
+    with shadowed(driver, ("int", "float", "isinstance"), extra={"time": clock.time_ns(), "asyncio": clock.asyncio_ns()}), \
+            shadowed(client_context, (), extra={"time": clock.time_ns()}):
+        sched = scheduler.scheduler_for(task)
+        h = driver.ScheduleHandle(ta, sched, driver.IterationBased(0, k), runner, Params())
+        inner = h.__call__
+
+        async def spy():
+            async for item in inner():
+                yielded.append(item[0])
+                yield item
+
+        h.__class__ = type("SpiedHandle", (driver.ScheduleHandle,), {"__call__": lambda self: spy()})
+        sampler = driver.Sampler(start_timestamp=0)
+        ex = driver.AsyncExecutor(3, task, h, es, sampler, threading.Event(), threading.Event(), "continue")
+        how, val = drive(ex())
+    samples = sampler.samples
+    total_start = clock.reads[0]
+    core.note("outcomes", [execenv.R_NAMES[kind_map[kinds.cache[i]]] for i in sorted(kinds.cache)])
+    core.note("result", (how, repr(val)[:120], len(samples), runner.calls))
+    core.trace("samples", len(samples))
+    observe("executor finishes normally under on-error=continue (a failed request does not break the schedule)", how == "ret")
+    observe("exactly one sample per executed request", len(samples) == runner.calls and runner.calls == k)
+    for i, s in enumerate(samples):
+        w_start, w_end = runner.wire[i]
+        observe("sample %d service time == response received - request sent" % i, s.service_time == w_end - w_start)
+        observe("sample %d processing time >= service time >= 0" % i, s_and(s.processing_time >= s.service_time, s.service_time >= 0))
+        if i < len(yielded):
+            sched_abs = total_start + yielded[i]
+            if bool(yielded[i] > 0) if not core.is_sym(yielded[i]) else True:
+                observe("sample %d throttled: not issued before its scheduled time" % i, implies(yielded[i] > 0, w_start >= sched_abs))
+                observe("sample %d throttled: latency measured from the scheduled time" % i, implies(yielded[i] > 0, s.latency == w_end - sched_abs))
+        observe("sample %d latency >= service time" % i, s.latency >= s.service_time)
+    for a, b in zip(yielded, yielded[1:]):
+        observe("scheduled times never decrease", b >= a)
+    for i in range(1, len(yielded)):
+        # documented pacing once the unit is known: weight * clients / target seconds after the previous slot
+        prev_kind = kind_map[kinds.cache[i - 1]]
+        w = {execenv.R_DICT: 7, execenv.R_DICT_FAIL: 3, execenv.R_API: None}[prev_kind]
+        if w is not None:
+            observe("slot %d is weight*C/T after slot %d" % (i, i - 1), (yielded[i] - yielded[i - 1]) * sl["target"] == w * clients)
 
 
 def abort_policy(sl):
@@ -229,10 +292,15 @@ STUBS = ["clock: time.perf_counter/time.time inside esrally.driver.driver and es
 HARNESSES = [
     Harness("timings", timings, "symbolic",
             lambda tier: [{"requests": k, "throttled": t, "_w": k} for k in ((1, 2, 3) if tier == "quick" else (1, 2, 3, 4)) for t in (True, False)]
-            + [{"requests": 2, "throttled": True, "complete_during_wait": True, "max_gap": 2.5, "_w": 3}],
+            + [{"requests": 2, "throttled": True, "complete_during_wait": True, "max_gap": 2.5, "_w": 3}]
+            + [{"requests": 2, "throttled": t, "nested": True, "_w": 2} for t in (True, False)],
             reads=READS, stubs=STUBS, assumptions=["floats modelled as exact reals (model R)", "runners touch the request context (documented client contract)"],
             bounds={"requests per client": "<=3 quick / <=4 thorough", "clock increments and scheduled gaps": "unbounded reals >= 0", "outcome classes": 8},
             real_valued=True, doc="the three timings, throttling, one sample per request, error outcomes under continue"),
+    Harness("real_scheduler", real_scheduler, "symbolic", lambda tier: [{"requests": r, "target": t} for r in ((2, 3) if tier == "quick" else (2, 3, 4)) for t in (1, 14)],
+            reads=READS + [driver.ScheduleHandle.__call__], stubs=STUBS[:], real_valued=True,
+            bounds={"requests": "2..3 (4)", "target throughput": "'1 docs/s' / '14 docs/s'", "clients": "1..2", "outcomes": "7 docs / unsuccessful 3 docs / ApiError per request"},
+            doc="docs/s-throttled task on the real schedule handle and unit-aware scheduler with failing requests"),
     Harness("abort_policy", abort_policy, "symbolic", lambda tier: [{"throttled": t} for t in (True, False)], reads=READS, stubs=STUBS,
             bounds={"requests": 2, "outcome classes": 9}, real_valued=True, doc="on-error=abort and fatal errors"),
     Harness("completion_seam", completion_seam, "symbolic",
